@@ -410,12 +410,12 @@ def sequences(kind, maxlen):
 
 
 def bounds(tier):
-    return {"kinds": list(KINDS), "max_len": 4 if tier == "quick" else 5, "alphabets": {k: [str(x) for x in (v or ["1..n"])] for k, v in KINDS.items()},
-            "string_fn_alphabet": [repr(c)[1:-1] for c in STRING_ALPHA], "string_fn_max_len": 4 if tier == "quick" else 5}
+    return {"kinds": list(KINDS), "max_len": 4 if tier == "quick" else 6, "alphabets": {k: [str(x) for x in (v or ["1..n"])] for k, v in KINDS.items()},
+            "string_fn_alphabet": [repr(c)[1:-1] for c in STRING_ALPHA], "string_fn_max_len": 4 if tier == "quick" else 6}
 
 
 def cases(tier, shard, nshards):
-    maxlen = 4 if tier == "quick" else 5
+    maxlen = 4 if tier == "quick" else 6
     cnt = 0
     for kind in KINDS:
         for xs in sequences(kind, maxlen):
@@ -449,7 +449,7 @@ def cases(tier, shard, nshards):
                 if exp is None or name in ("^^",) and n_ > 33:
                     continue
                 yield Case(src, {"fn": name, "kind": kind, "n": len(xs), "exp": exp if exp == RAISE else list(exp), "long": 1}, opts={"fuel": 2000000, "step_ms": 20000, "compact": True, "cap": 5000})
-    smax = 4 if tier == "quick" else 5
+    smax = 4 if tier == "quick" else 6
     for L in range(0, smax + 1):
         for t in itertools.product(STRING_ALPHA, repeat=L):
             cnt += 1
